@@ -425,18 +425,24 @@ class Interp:
         if isinstance(st, ast.Try):
             try:
                 self.block(st.body, env, m)
+            except (_Return, _Break, _Continue):
+                self.block(st.finalbody, env, m)  # leaving the try block through return / break / continue still runs `finally`
+                raise
             except EvalRaise as e:
                 for h in st.handlers:
                     names = []
                     if h.type is not None:
                         names = [dotted(x).split(".")[-1] for x in (h.type.elts if isinstance(h.type, ast.Tuple) else [h.type]) if dotted(x)]
-                    if h.type is None or e.exc_name in names or "Exception" in names or "BaseException" in names:
+                    if h.type is None or self._exc_caught(e.exc_name, names):
                         if h.name:
                             env[h.name] = getattr(e, "value", None) or Obj(None, {"__traceback__": None, "exc_name": e.exc_name, "args": (e.msg,)}, "exception")
                         self.block(h.body, env, m)
                         break
                 else:
+                    self.block(st.finalbody, env, m)
                     raise
+            else:
+                self.block(st.orelse, env, m)  # the `else` of a try runs when the body raised nothing
             self.block(st.finalbody, env, m)
             return
         if isinstance(st, ast.Raise):
@@ -911,7 +917,12 @@ class Interp:
                 return math.pi
             return ("external", r[1])
         if kind == "const":
-            return self.eval(r[2], {}, r[1])
+            # a module-level object is one object for everybody who reads the name (a table two classes share is shared): evaluated once per scenario
+            store = self.sc.__dict__.setdefault("module_globals", {})
+            key = (r[1].name, id(r[2]))
+            if key not in store:
+                store[key] = self.eval(r[2], {}, r[1])
+            return store[key]
         if kind == "classattr":
             c = r[1]
             if self.ev.is_enum(c):
@@ -1353,10 +1364,17 @@ class Interp:
                     return [self.apply(args[0], list(xs), {}, node, m) for xs in self._iterable(args[1])]
                 if name == "itertools.islice" and len(args) >= 2:
                     return list(self._iterable(args[0]))[slice(*args[1:])]
-                if name == "operator.attrgetter" and len(args) == 1 and isinstance(args[0], str) and not kwargs:
-                    return (lambda a_: (lambda o_: self.getattr(o_, a_)))(args[0])
-                if name == "operator.itemgetter" and len(args) == 1:
-                    return (lambda k_: (lambda o_: o_[self._hashable(k_)] if isinstance(o_, dict) else o_[k_]))(args[0])
+                if name == "operator.attrgetter" and args and all(isinstance(a_, str) for a_ in args) and not kwargs:
+                    def _chain(o_, path):
+                        for part in path.split("."):
+                            o_ = self.getattr(o_, part)
+                        return o_
+                    names_ = list(args)
+                    return (lambda o_: _chain(o_, names_[0])) if len(names_) == 1 else (lambda o_: tuple(_chain(o_, n_) for n_ in names_))
+                if name == "operator.itemgetter" and args:
+                    get_ = lambda o_, k_: o_[self._hashable(k_)] if isinstance(o_, dict) else o_[k_]
+                    keys_ = list(args)
+                    return (lambda o_: get_(o_, keys_[0])) if len(keys_) == 1 else (lambda o_: tuple(get_(o_, k_) for k_ in keys_))
                 if name == "operator.methodcaller" and args and isinstance(args[0], str):
                     return (lambda n_, a2, k2: (lambda o_: self.apply(self.getattr(o_, n_), list(a2), dict(k2), node, m)))(args[0], args[1:], kwargs)
                 if name == "operator.setitem" and len(args) == 3:
@@ -1377,6 +1395,40 @@ class Interp:
         if callable(f):
             return f(*args, **kwargs)
         raise AnalysisError(f"circuit evaluation: call of {f!r} ({src(node)[:50]})")
+
+    _BUILTIN_EXC_BASE = {"KeyError": "LookupError", "IndexError": "LookupError", "LookupError": "Exception", "NotImplementedError": "RuntimeError", "RecursionError": "RuntimeError",
+                         "ZeroDivisionError": "ArithmeticError", "OverflowError": "ArithmeticError", "FloatingPointError": "ArithmeticError", "ArithmeticError": "Exception",
+                         "UnicodeError": "ValueError", "TimeoutError": "OSError", "ConnectionError": "OSError", "FileNotFoundError": "OSError", "PermissionError": "OSError", "OSError": "Exception",
+                         "ModuleNotFoundError": "ImportError", "ImportError": "Exception", "IndentationError": "SyntaxError", "SyntaxError": "Exception", "StopIteration": "Exception",
+                         "ValueError": "Exception", "TypeError": "Exception", "RuntimeError": "Exception", "AttributeError": "Exception", "AssertionError": "Exception", "NameError": "Exception",
+                         "UnboundLocalError": "NameError", "MemoryError": "Exception", "Exception": "BaseException", "Deadlock": "BaseException", "Runaway": "BaseException"}
+
+    def _exc_caught(self, exc_name, handler_names) -> bool:
+        """does `except <handler_names>` catch an exception of the class named exc_name (builtin hierarchy; classes of the repository
+        through their bases)"""
+        seen, todo = set(), [exc_name]
+        while todo:
+            n = todo.pop()
+            if n in seen:
+                continue
+            seen.add(n)
+            if n in handler_names:
+                return True
+            if n in self._BUILTIN_EXC_BASE:
+                todo.append(self._BUILTIN_EXC_BASE[n])
+                continue
+            found = False
+            for mod in self.repo.modules.values():
+                c = mod.classes.get(n)
+                if c is not None:
+                    found = True
+                    for b in c.node.bases:
+                        d = dotted(b)
+                        if d:
+                            todo.append(d.split(".")[-1])
+            if not found:
+                todo.append("Exception")  # a class the repository does not define (library exception): an Exception
+        return False
 
     def _receiver(self, fn, o):
         """what a method called through the instance o receives first: the instance, its class for a classmethod, nothing for a staticmethod"""
